@@ -45,6 +45,12 @@ def run_function(prog, f, args, stubs, max_steps=400, extra_env=None):
             nm = prog.callee_name(s)
             if nm in stubs:
                 return stubs[nm]([ev(a) for a in children(s)[1:]], [canon(a) for a in children(s)[1:]])
+            g = prog.resolve_name(f.unit, nm) if nm else None
+            if g is not None and getattr(g, 'body', None) is not None and max_steps > 50:
+                vals = [ev(a) for a in children(s)[1:]]
+                if any(v is None for v in vals):
+                    return None
+                return run_function(prog, g, vals, stubs, max_steps=max_steps // 2)
             return None
         if k == 'UnaryOperator':
             a = ev(children(s)[0])
